@@ -46,3 +46,76 @@ Theorem C05gen_offset_commit : forall msgset data,
   run 0 msgset data ast_decode_offset_commit_response = emb_gen v_commit (decode_offset_commit_response data).
 Proof. exact sound_offset_commit. Qed.
 Print Assumptions C05gen_offset_commit.
+
+(*@ decode_offset_fetch_response *)
+Theorem C05gen_offset_fetch : forall msgset data,
+  run 0 msgset data ast_decode_offset_fetch_response = emb_gen v_ofetch (decode_offset_fetch_response data).
+Proof. exact sound_offset_fetch. Qed.
+Print Assumptions C05gen_offset_fetch.
+
+(*@ decode_offset_response *)
+Theorem C05gen_list_offsets : forall msgset data,
+  run 0 msgset data ast_decode_offset_response = emb_gen v_offset (decode_offset_response data).
+Proof. exact sound_offsets. Qed.
+Print Assumptions C05gen_list_offsets.
+
+(* decode_produce_response = two nested generator functions and a dispatch on api_version *)
+(*@ decode_produce_response__v0 *)
+Theorem C05gen_produce_v0 : forall msgset data,
+  run 0 msgset data ast_decode_produce_response__v0 = emb_gen v_produce (decode_produce_v0 data).
+Proof. exact sound_produce_v0. Qed.
+Print Assumptions C05gen_produce_v0.
+
+(*@ decode_produce_response__v2 *)
+Theorem C05gen_produce_v2 : forall msgset data,
+  run 0 msgset data ast_decode_produce_response__v2 = emb_gen v_produce (decode_produce_v2 data).
+Proof. exact sound_produce_v2. Qed.
+Print Assumptions C05gen_produce_v2.
+
+(*@ decode_produce_response__dispatch *)
+Theorem C05gen_produce_dispatch : forall ver data,
+  decode_produce_response ver data
+  = match select ast_decode_produce_response__dispatch ver with
+    | Some 0%nat => Some (decode_produce_v0 data)
+    | Some 1%nat => Some (decode_produce_v2 data)
+    | _ => None
+    end.
+Proof. exact sound_produce_dispatch. Qed.
+Print Assumptions C05gen_produce_dispatch.
+
+(* api_version is the interpreter's parameter; KafkaCodec._decode_message_set_iter is [dec_set depth orc] *)
+(*@ decode_fetch_response *)
+Theorem C05gen_fetch : forall depth orc ver data,
+  run ver (dec_set depth orc) data ast_decode_fetch_response = emb_gen v_fetch (decode_fetch_response ver depth orc data).
+Proof. exact sound_fetch. Qed.
+Print Assumptions C05gen_fetch.
+
+(*@ decode_metadata_response *)
+Theorem C05gen_metadata : forall msgset data,
+  run 0 msgset data ast_decode_metadata_response = emb_res v_metadata (decode_metadata_response data).
+Proof. exact sound_metadata. Qed.
+Print Assumptions C05gen_metadata.
+
+(*@ decode_api_versions_response *)
+Theorem C05gen_api_versions : forall msgset data,
+  run 0 msgset data ast_decode_api_versions_response = emb_res v_api_versions (decode_api_versions_response data).
+Proof. exact sound_api_versions. Qed.
+Print Assumptions C05gen_api_versions.
+
+(*@ decode_join_group_protocol_metadata *)
+Theorem C05gen_join_protocol_metadata : forall msgset data,
+  run 0 msgset data ast_decode_join_group_protocol_metadata = emb_res v_subscription (decode_join_group_protocol_metadata data).
+Proof. exact sound_subscription. Qed.
+Print Assumptions C05gen_join_protocol_metadata.
+
+(*@ decode_join_group_response *)
+Theorem C05gen_join_group : forall msgset data,
+  run 0 msgset data ast_decode_join_group_response = emb_res v_join (decode_join_group_response data).
+Proof. exact sound_join. Qed.
+Print Assumptions C05gen_join_group.
+
+(*@ decode_sync_group_member_assignment *)
+Theorem C05gen_sync_member_assignment : forall msgset data,
+  run 0 msgset data ast_decode_sync_group_member_assignment = emb_res v_assignment (decode_sync_group_member_assignment data).
+Proof. exact sound_assignment. Qed.
+Print Assumptions C05gen_sync_member_assignment.
